@@ -70,6 +70,11 @@ def verify_function(index: SourceIndex, c: Contract, registry: Optional[dict] = 
                 if not cx.prefix:
                     cx.oblige(f"{c.key or c.target}#cover:requires" + (f"[{case}]" if case is not None else ""), z3.BoolVal(True),
                               kind="cover", expect="sat")
+                if hasattr(c, "script"):
+                    # relational / multi-call obligations: the contract drives several real functions itself
+                    for name, f in c.script(cx, it, a):
+                        cx.oblige(f"{c.key or c.target}#lemma:{name}" + (f"[{case}]" if case is not None else ""), f, kind="post")
+                    return None
                 from .interp import Frame
                 fr = Frame(c.target, fn, mi, ci, c)
                 fr.locals.update(a)
